@@ -140,8 +140,16 @@ def body_structure(case, ctx):
     ag = ga.build(desc)
     if not check_product(ctx, ag, desc, degs, c_in, rot):
         return
-    P, W, ind = np.asarray(ag.points), np.asarray(ag.weights), np.asarray(ag.indices)
+    P, W, ind = np.array(ag.points), np.array(ag.weights), np.array(ag.indices)
     ctx.close(np.asarray(ag.center, dtype=float), c, 0.0, "centre-attribute", "ag.center")
+    # .points is documented as centre + shell points (computed on read): shifting the array a caller was handed
+    # must not move the grid
+    handed = ag.points
+    try:
+        handed += 3.0
+    except (ValueError, TypeError):
+        pass
+    ctx.check(np.array_equal(np.asarray(ag.points), P), "points-accessor-hands-out-internal-array", f"editing the array returned by .points in place changed the grid (centre {c.tolist()})")
 
     # -- reproducible from the seed ------------------------------------------------------------
     ag_b = ga.build(desc)
